@@ -969,7 +969,13 @@ func c19CLIOne(cfg Config, name string) *Violation {
 			out := filepath.Join(dir, fmt.Sprintf("out-%d.%s", k, ext))
 			cmd := exec.Command(cli, append(append([]string{}, args...), "-o", out)...)
 			cmd.Env = append(os.Environ(), fmt.Sprintf("GOMAXPROCS=%d", []int{1, 2, 4, 16}[k%4]))
-			if err := cmd.Run(); err != nil {
+			if outb, err := cmd.CombinedOutput(); err != nil {
+				if os.Getenv("VERIF_DEBUG") != "" {
+					fmt.Fprintln(os.Stderr, "debug: cli", args, err, string(outb))
+				}
+				if ext != "ttml" {
+					continue // e.g. SSA output of an input without metadata: fails the same way every time
+				}
 				return nil // a failing command is not this property's business
 			}
 			got, err := os.ReadFile(out)
